@@ -155,6 +155,8 @@ class MAtoms:
             for r, val in zip(self.rows, per):
                 r[key][...] = val
         else:
+            if key == 'pos' and np.dtype(dtype).kind in 'biu':      # documented: pos is a list/ndarray of float
+                dtype = np.dtype(float)
             self._add_key(key, dtype, shape, per)
 
     # ---- reads -------------------------------------------------------------
